@@ -1,6 +1,7 @@
 """S-rel: relational runs on the real optimizers — same seed twice, used instance vs fresh, max f vs min -f,
 constructor-config vs set_config_parameters.  Every runner returns plain digests that are compared bit-for-bit."""
 from __future__ import annotations
+import json
 import contextlib
 import io
 import random as pyrandom
@@ -158,4 +159,23 @@ def run_c18(job):
                     break
             except Exception as e:  # noqa — the other configuration was not accepted: nothing to compare
                 pass
+        # the same with a dictionary that leaves every optional field to its default, on an instance whose earlier configuration had set them
+        # (a sub-grid of HyperTuner that does not list them): the new configuration is Config(**d), nothing of the old one carries over
+        try:
+            required = {k for k, f in cfgcls.model_fields.items() if f.is_required()}
+            d_min = {k: v for k, v in d.items() if k in required}
+            earlier = dict(optimizers.CFGS[name][1])
+            earlier.update({"max_cycles": 2, "fitness_error": None, "early_stopping": {"patience": 2, "min_delta": 0.05}})
+            for k, f in cfgcls.model_fields.items():      # every optional algorithm parameter moved off its default where the fixture knows another value
+                if k not in required and k in optimizers.CFGS[name][1] and k not in ("fitness_error", "early_stopping"):
+                    earlier[k] = optimizers.CFGS[name][1][k]
+            used2 = cls(cfgcls(**earlier))
+            trace.run_traced(dict(job, trace=False, seed=(job.get("seed") or 0) + 2), opt=used2)
+            used2.set_config_parameters(d_min)
+            want = cfgcls(**d_min)
+            out["reconf_min_config_equal"] = bool(used2.configuration == want) and type(used2.configuration) is type(want)
+            if not out["reconf_min_config_equal"]:
+                out["reconf_min_detail"] = {"got": json.loads(used2.configuration.model_dump_json()), "want": json.loads(want.model_dump_json())}
+        except Exception as e:  # noqa
+            out["reconf_min_config_equal"] = None
     return out
